@@ -41,6 +41,12 @@ func (vc *VC) calleeKey(c *ssa.CallCommon) (key string, fn *ssa.Function, displa
 	}
 	fn = c.StaticCallee()
 	if fn == nil {
+		// call through a package-level function variable: contracts may be attached to the variable
+		if ld, ok := c.Value.(*ssa.UnOp); ok && ld.Op == token.MUL {
+			if g, ok := ld.X.(*ssa.Global); ok {
+				return g.Pkg.Pkg.Path() + "." + g.Name(), nil, "var " + g.Name()
+			}
+		}
 		return "", nil, "dynamic call"
 	}
 	if fn.Pkg != nil && strings.HasPrefix(fn.Pkg.Pkg.Path(), vc.prog.module) {
@@ -645,7 +651,15 @@ func (vc *VC) loopFrame(li *loopInfo) (keys []string, byKey map[string][]modRegi
 		byKey[r.key] = append(byKey[r.key], r)
 	}
 	for _, k := range sortedKeys(li.mods) {
-		if strings.HasPrefix(k, "#") || vc.heapElem[k] == nil {
+		if k == "#map" {
+			for _, hk := range sortedKeys(vc.heapSort) {
+				if strings.HasPrefix(hk, "#map.") {
+					keys = append(keys, hk)
+				}
+			}
+			continue
+		}
+		if (strings.HasPrefix(k, "#") && !strings.HasPrefix(k, "#ghost.")) || vc.heapElem[k] == nil {
 			continue
 		}
 		keys = append(keys, k)
